@@ -11,7 +11,11 @@ ENTRY = dict(
          "Len-1 / 4 / Len bytes before any Len(), Read twice, Len twice, Write then Read without Len()), judged against "
          "the length the object reports afterwards. Edits: per type three objects are encoded once (Len+Read / Len / Read), ALL exported fields are overwritten by "
          "those of a second generated value (reflection), then Len/Read are judged again (keys <Type>/after-edit/<rule>; "
-         "CReadObj cases carry the first encoding for the model of the QUIC marshal cache). A case is distinct by (type, size, index, buffer class) resp. (type, size, index, psk choice) or corpus index; a "
+         "CReadObj cases carry the first encoding for the model of the QUIC marshal cache). Non-fresh Write: for every type with Write, a generated value already encoded once receives the body of a "
+         "second generated value (sizes 0, 1-3, 12-31), and a fresh object is written long-then-short/empty and "
+         "short-then-long; the object must then encode like a fresh object written with the last body (or, for the types "
+         "whose body is documented as ignored, exactly as before); keys <Type>/write-non-fresh, also as Coq oracle cases "
+         "(ext_write is a function of id and body only). A case is distinct by (type, size, index, buffer class) resp. (type, size, index, psk choice) or corpus index; a "
          "read is non-trivial when Len > 4 and the buffer is large enough, a write when the body is non-empty and Write "
          "accepted it.",
     trusted_base=["harness/extcoq (reflection-based renderer of Go extension values as Coq terms; copy of hostnameInSNI)"],
